@@ -132,3 +132,76 @@ Theorem C19_lock_lint_table :
   c19_acquire_is_lock_unwrap = true.
 Proof. exact lock_lint_all. Qed.
 Print Assumptions C19_lock_lint_table.
+
+(* ---- the critical section split into phases (Tick, Probe, Commit as separate events): here the
+   mutex is what makes the section atomic, so the theorems below USE mutual exclusion. *)
+
+Theorem C19_fine_mutual_exclusion :
+  forall (Q A L : Type) (tick : cache -> Q -> cache) (probe : cache -> Q -> L)
+         (commit : cache -> Q -> L -> res (cache * A)) c qss fsched (fs : fstate Q A L) i j fi fj,
+    frun tick probe commit true (finit c qss) fsched = Some fs ->
+    nth_error (fs_threads fs) i = Some fi -> nth_error (fs_threads fs) j = Some fj ->
+    in_critical fi = true -> in_critical fj = true -> i = j.
+Proof. exact fine_mutual_exclusion. Qed.
+Print Assumptions C19_fine_mutual_exclusion.
+
+Theorem C19_fine_no_deadlock :
+  forall (Q A L : Type) (tick : cache -> Q -> cache) (probe : cache -> Q -> L)
+         (commit : cache -> Q -> L -> res (cache * A)) c qss fsched (fs : fstate Q A L),
+    frun tick probe commit true (finit c qss) fsched = Some fs -> ffinal fs = false ->
+    exists i fs', fstep tick probe commit true fs i = Some fs'.
+Proof. exact fine_no_deadlock. Qed.
+Print Assumptions C19_fine_no_deadlock.
+
+(* premises are about the phases run back to back (atomic_body): interleaving cannot add a panic *)
+Theorem C19_fine_no_poison :
+  forall (Q A L : Type) (tick : cache -> Q -> cache) (probe : cache -> Q -> L)
+         (commit : cache -> Q -> L -> res (cache * A)) (inv : cache -> Prop),
+    (forall c q, inv c -> exists c' a, atomic_body tick probe commit c q = Ok (c', a) /\ inv c') ->
+    forall c qss fsched (fs : fstate Q A L),
+      inv c -> frun tick probe commit true (finit c qss) fsched = Some fs ->
+      fs_poisoned fs = false /\ fany_crashed fs = false.
+Proof. exact fine_no_poison. Qed.
+Print Assumptions C19_fine_no_poison.
+
+Theorem C19_fine_interleaving_sequential :
+  forall (Q A L : Type) (tick : cache -> Q -> cache) (probe : cache -> Q -> L)
+         (commit : cache -> Q -> L -> res (cache * A)) (inv : cache -> Prop),
+    (forall c q, inv c -> exists c' a, atomic_body tick probe commit c q = Ok (c', a) /\ inv c') ->
+    (forall c1 c2 q c1' a1 c2' a2, inv c1 -> inv c2 ->
+       atomic_body tick probe commit c1 q = Ok (c1', a1) ->
+       atomic_body tick probe commit c2 q = Ok (c2', a2) -> a1 = a2) ->
+    forall c0 qss fsched (fs : fstate Q A L),
+      inv c0 -> frun tick probe commit true (finit c0 qss) fsched = Some fs ->
+      forall c1, inv c1 ->
+      forall i ft qs, nth_error (fs_threads fs) i = Some ft -> nth_error qss i = Some qs ->
+        exists c', seq_run (atomic_body tick probe commit) c1 (firstn (length (ft_done ft)) qs)
+                   = Ok (c', ft_done ft).
+Proof. exact fine_interleaving_sequential. Qed.
+Print Assumptions C19_fine_interleaving_sequential.
+
+(* the regex manager phase by phase (probe the entry, later `regex.as_ref().unwrap()`): with the
+   mutex no interleaving panics, poisons or changes an answer *)
+Theorem C19_regex_phases_safe :
+  forall (compile : key -> N) (is_match : N -> N -> bool) c qss fsched
+         (fs : fstate rq bool (list (option entry))),
+    cache_ok compile c ->
+    frun rm_tick rm_probe (rm_commit compile is_match) true (finit c qss) fsched = Some fs ->
+    fs_poisoned fs = false /\ fany_crashed fs = false /\
+    forall i ft qs, nth_error (fs_threads fs) i = Some ft -> nth_error qss i = Some qs ->
+      ft_done ft = map (fresh_answer compile is_match) (firstn (length (ft_done ft)) qs).
+Proof. exact rm_phases_safe. Qed.
+Print Assumptions C19_regex_phases_safe.
+
+(* ... and WITHOUT the mutex (locked = false) the same phases on a consistent cache reach a panic
+   (`unwrap` on a regex another thread's cleanup discarded between Probe and Commit); the very
+   same schedule is not a run when the mutex is on.  Not a finding about the crate: it shows what
+   the guard is needed for, i.e. that the theorems above are not vacuous in the lock. *)
+Theorem C19_without_mutex_refuted :
+  exists (qss : list (list rq)) sched fs,
+    cache_ok (compile_of ex_tbl) [] /\
+    frun rm_tick rm_probe (rm_commit (compile_of ex_tbl) (match_of ex_mt)) false (finit [] qss) sched = Some fs /\
+    fany_crashed fs = true /\
+    frun rm_tick rm_probe (rm_commit (compile_of ex_tbl) (match_of ex_mt)) true (finit [] qss) sched = None.
+Proof. exact without_mutex_refuted. Qed.
+Print Assumptions C19_without_mutex_refuted.
